@@ -117,11 +117,11 @@ func (c *baseTrafficShapingController) performCheckingForConcurrencyMetric(arg i
 	specificItem := c.specificItems
 	initConcurrency := int64(0)
 	concurrencyPtr := c.metric.ConcurrencyCounter.AddIfAbsent(arg, &initConcurrency)
-	if concurrencyPtr == nil {
-		// First to access this arg
-		return nil
+	concurrency := int64(0)
+	if concurrencyPtr != nil {
+		concurrency = atomic.LoadInt64(concurrencyPtr)
 	}
-	concurrency := atomic.LoadInt64(concurrencyPtr)
+	// A first access to this arg starts from zero and is checked against the threshold like any other.
 	concurrency++
 	if specificConcurrency, existed := specificItem[arg]; existed {
 		if concurrency <= specificConcurrency {
